@@ -1175,6 +1175,16 @@ inductive Impl.Reachable (E : Impl.Env) : Impl.Db → Prop
   | appendList {db : Impl.Db} {l : Impl.SList} :
       Impl.Reachable E db → l.Inv → Impl.Reachable E (db.appendList l)
 
+/-- every reachable database satisfies the invariant — for every normalisation function -/
+theorem Impl.Reachable.inv_raw {E : Impl.Env} {db : Impl.Db}
+    (h : Impl.Reachable E db) : Impl.Db.Inv db := by
+  induction h with
+  | empty => intro l hl; simp at hl
+  | decoded hr hnd => exact Impl.readDb_inv hr hnd
+  | append _ ho ha ih => exact Impl.Db.append_inv_raw ih ho ha
+  | remove _ hr ih => exact (Impl.removeFrom_ok ih hr).1
+  | appendList _ hl ih => exact Impl.appendList_inv ih hl
+
 theorem Impl.Reachable.inv {E : Impl.Env} (hidem : E.Idem) {db : Impl.Db}
     (h : Impl.Reachable E db) : Impl.Db.Inv db := by
   induction h with
